@@ -78,6 +78,12 @@ def run(rep, tier):
         ok = report_trace_result(rep, res, None)
         if not res.get("crashed"):
             rep.add_tlc(res["tlc"], "trace batch %d" % (i // bs))
+    # the discrete system itself: right-hand side = source term x quadrature weight (Dirichlet nodes: boundary data), on the
+    # finest and on the coarse level, cached and uncached geometry - Stencil.tla RhsWeight / CoarseRhsWeight / ConstantSolutionExact
+    import stencil_common as stc
+    vlib.sany("StencilMC")
+    tabs = stc.tables(rep, tier, "c01rhs", "d" if not thorough else "ab")
+    stc.conformance(rep, tier, tabs, "rhs", 48, "rhs", threads=(1, 3))
     rep.cov["rule"] = ("configurations = TLC random walks (depth 3/8/14) through OptionSpace.tla restricted to C01's supported set; each is one "
                        "setup()+solve() trace validated against TraceSolver.tla incl. the C01 obligations; distinct by full option record")
 
